@@ -46,7 +46,7 @@ theorem setSt_evs {k evs st l f} (h : setSt k evs st l = some f) :
       | none => simp [hr] at h
       | some f' => simp [hr] at h; subst h; simp [ih hr]
 
-theorem giveUpIn_evs {evs st l f} (h : giveUpIn evs st false l = some f) :
+theorem giveUpIn_evs {k evs st l f} (h : giveUpIn k evs st false l = some f) :
     f.flatMap (·.evs) = l.flatMap (·.evs) := by
   induction l generalizing f with
   | nil => simp [giveUpIn] at h
@@ -54,7 +54,7 @@ theorem giveUpIn_evs {evs st l f} (h : giveUpIn evs st false l = some f) :
     simp only [giveUpIn] at h
     split at h
     · simp at h; subst h; simp
-    · cases hr : giveUpIn evs st false bs with
+    · cases hr : giveUpIn k evs st false bs with
       | none => simp [hr] at h
       | some f' => simp [hr] at h; subst h; simp [ih hr]
 
@@ -94,7 +94,7 @@ theorem setSt_ok_full {k evs l f acked gaveUp} (h : setSt k evs .ok l = some f)
         · exact FullOK_mono (fun y hy => hl y hy) (fun e he => List.mem_append_left _ he) (fun e he => he) x (List.mem_cons_self ..)
         · exact ih hr hbs x hx
 
-theorem giveUpIn_failed_full {evs l f acked gaveUp} (h : giveUpIn evs .failed false l = some f)
+theorem giveUpIn_failed_full {k evs l f acked gaveUp} (h : giveUpIn k evs .failed false l = some f)
     (hl : FullOK acked gaveUp l) : FullOK acked (gaveUp ++ evs) f := by
   induction l generalizing f with
   | nil => simp [giveUpIn] at h
@@ -107,9 +107,9 @@ theorem giveUpIn_failed_full {evs l f acked gaveUp} (h : giveUpIn evs .failed fa
       intro x hx
       rcases List.mem_cons.1 hx with rfl | hx
       · refine ⟨fun hs => by simp at hs, fun _ e he => ?_, by simp⟩
-        simp only [List.mem_append]; right; rw [← hp.2]; simpa using he
+        simp only [List.mem_append]; right; rw [← hp.2.2]; simpa using he
       · exact FullOK_mono hbs (fun e he => he) (fun e he => List.mem_append_left _ he) x hx
-    · cases hr : giveUpIn evs .failed false bs with
+    · cases hr : giveUpIn k evs .failed false bs with
       | none => simp [hr] at h
       | some f' =>
         simp [hr] at h; subst h
@@ -151,6 +151,7 @@ def Ordered (accepted dropped added : List Ev) : Prop :=
 structure CInv (s : State) : Prop where
   noDQ     : s.hasDQ = false
   dqIdle   : s.dq.cur = [] ∧ s.dq.full = [] ∧ s.dq.committing = [] ∧ s.inbox = []
+  dqKids   : s.dq.curKids = []
   layout   : s.main.done ++ s.main.full.flatMap (·.evs) ++ s.main.cur = s.main.added
   loop     : s.commits ++ s.main.committing = s.main.done
   fullOK   : FullOK s.acked s.gaveUp s.main.full
@@ -165,7 +166,7 @@ structure CInv (s : State) : Prop where
   nodupAcc : s.accepted.Nodup
 
 theorem cinv_init : CInv (init false) := by
-  refine ⟨rfl, by simp [init], by simp [init], by simp [init], ?_, by simp [init], ?_, by simp [init],
+  refine ⟨rfl, by simp [init], by simp [init], by simp [init], by simp [init], ?_, by simp [init], ?_, by simp [init],
     by simp [init], by simp [init], by simp [init], by simp [init], by simp [init], by simp [init]⟩
   · intro b hb; simp [init] at hb
   · intro pre e post h; simp [init] at h
@@ -180,7 +181,7 @@ theorem earlierDone_spec {s : State} {e : Ev} (h : earlierDone s e = true) :
   exact this
 
 theorem cinv_step {s s' : State} {op : Op} (h : CInv s) (hs : step? s op = some s') : CInv s' := by
-  obtain ⟨hnd, hdq, hlay, hloop, hfull, hdone, hord, hnA, hnD, hdis, haA, hdA, huniq, hnAcc⟩ := h
+  obtain ⟨hnd, hdq, hdqk, hlay, hloop, hfull, hdone, hord, hnA, hnD, hdis, haA, hdA, huniq, hnAcc⟩ := h
   cases op with
   | accept e =>
     simp only [step?] at hs
@@ -189,7 +190,7 @@ theorem cinv_step {s s' : State} {op : Op} (h : CInv s) (hs : step? s op = some 
       simp at hs; subst hs
       have hfresh : e ∉ s.accepted := fun hin => by
         have := le_lastSeq hin rfl; omega
-      refine ⟨hnd, hdq, hlay, hloop, hfull, hdone, ?_, hnA, hnD, hdis, ?_, ?_, ?_, ?_⟩
+      refine ⟨hnd, hdq, hdqk, hlay, hloop, hfull, hdone, ?_, hnA, hnD, hdis, ?_, ?_, ?_, ?_⟩
       · intro pre x post hx e' he' hst hlt
         simp only [List.mem_append, List.mem_singleton] at he'
         rcases he' with he' | rfl
@@ -218,7 +219,7 @@ theorem cinv_step {s s' : State} {op : Op} (h : CInv s) (hs : step? s op = some 
       simp only [List.contains_eq_mem, decide_eq_true_eq, Bool.not_eq_eq_eq_not, Bool.not_true,
         decide_eq_false_iff_not] at hg
       obtain ⟨hacc, hnd', hna⟩ := hg
-      refine ⟨hnd, hdq, hlay, hloop, hfull, hdone, ?_, hnA, ?_, ?_, haA, ?_, huniq, hnAcc⟩
+      refine ⟨hnd, hdq, hdqk, hlay, hloop, hfull, hdone, ?_, hnA, ?_, ?_, haA, ?_, huniq, hnAcc⟩
       · intro pre x post hx e' he' hst hlt
         rcases hord pre x post hx e' he' hst hlt with h1 | h1
         · exact Or.inl (List.mem_append_left _ h1)
@@ -250,7 +251,7 @@ theorem cinv_step {s s' : State} {op : Op} (h : CInv s) (hs : step? s op = some 
         simp only [List.contains_eq_mem, decide_eq_true_eq, Bool.not_eq_eq_eq_not, Bool.not_true,
           decide_eq_false_iff_not] at hacc hnd' hna
         have hed' := earlierDone_spec hed
-        refine ⟨hnd, hdq, ?_, hloop, hfull, hdone, ?_, ?_, hnD, ?_, ?_, hdA, huniq, hnAcc⟩
+        refine ⟨hnd, hdq, hdqk, ?_, hloop, hfull, hdone, ?_, ?_, hnD, ?_, ?_, hdA, huniq, hnAcc⟩
         · simp only; rw [← hlay]; simp [List.append_assoc]
         · intro pre x post hx e' he' hst hlt
           rcases append_singleton_split hx with ⟨post', h1, _⟩ | ⟨h1, h2, _⟩
@@ -273,12 +274,12 @@ theorem cinv_step {s s' : State} {op : Op} (h : CInv s) (hs : step? s op = some 
   | sealB d k =>
     cases d with
     | true =>
-      simp [step?, bq, hdq.1] at hs
+      simp [step?, bq, hdq.1, hdqk] at hs
     | false =>
       simp only [step?, bq, setBq, Bool.false_eq_true, ↓reduceIte] at hs
       split at hs
       · simp at hs; subst hs
-        refine ⟨hnd, hdq, ?_, hloop, ?_, hdone, hord, hnA, hnD, hdis, haA, hdA, huniq, hnAcc⟩
+        refine ⟨hnd, hdq, hdqk, ?_, hloop, ?_, hdone, hord, hnA, hnD, hdis, haA, hdA, huniq, hnAcc⟩
         · simp only; rw [← hlay]; simp [List.append_assoc]
         · intro b hb
           simp only [List.mem_append, List.mem_singleton] at hb
@@ -289,26 +290,31 @@ theorem cinv_step {s s' : State} {op : Op} (h : CInv s) (hs : step? s op = some 
   | sendOk d k evs =>
     cases d with
     | true =>
-      simp [step?, bq, hdq.2.1, setSt] at hs
+      simp [step?, bq, hdq.2.1] at hs
     | false =>
       simp only [step?, bq, setBq, Bool.false_eq_true, ↓reduceIte] at hs
       split at hs
-      · rename_i f hf
-        simp at hs; subst hs
-        refine ⟨hnd, hdq, ?_, hloop, setSt_ok_full hf hfull, ?_, hord, hnA, hnD, hdis, haA, hdA, huniq, hnAcc⟩
-        · simp only; rw [setSt_evs hf]; exact hlay
-        · intro e he
-          rcases hdone e he with h1 | h1
-          · exact Or.inl (List.mem_append_left _ h1)
-          · exact Or.inr h1
+      · rename_i b hb
+        split at hs
+        · split at hs
+          · rename_i f hf
+            simp at hs; subst hs
+            refine ⟨hnd, hdq, hdqk, ?_, hloop, setSt_ok_full hf hfull, ?_, hord, hnA, hnD, hdis, haA, hdA, huniq, hnAcc⟩
+            · simp only; rw [setSt_evs hf]; exact hlay
+            · intro e he
+              rcases hdone e he with h1 | h1
+              · exact Or.inl (List.mem_append_left _ h1)
+              · exact Or.inr h1
+          · simp at hs
+        · simp at hs
       · simp at hs
   | sendFail d k evs =>
     simp only [step?] at hs
     split at hs
     · simp at hs; subst hs
-      exact ⟨hnd, hdq, hlay, hloop, hfull, hdone, hord, hnA, hnD, hdis, haA, hdA, huniq, hnAcc⟩
+      exact ⟨hnd, hdq, hdqk, hlay, hloop, hfull, hdone, hord, hnA, hnD, hdis, haA, hdA, huniq, hnAcc⟩
     · simp at hs
-  | giveUp d evs =>
+  | giveUp d k evs =>
     cases d with
     | true =>
       simp [step?, bq, hdq.2.1, giveUpIn, hnd] at hs
@@ -317,7 +323,7 @@ theorem cinv_step {s s' : State} {op : Op} (h : CInv s) (hs : step? s op = some 
       split at hs
       · rename_i f hf
         simp at hs; subst hs
-        refine ⟨rfl, hdq, ?_, hloop, giveUpIn_failed_full hf hfull, ?_, hord, hnA, hnD, hdis, haA, hdA, huniq, hnAcc⟩
+        refine ⟨rfl, hdq, hdqk, ?_, hloop, giveUpIn_failed_full hf hfull, ?_, hord, hnA, hnD, hdis, haA, hdA, huniq, hnAcc⟩
         · simp only; rw [giveUpIn_evs hf]; exact hlay
         · intro e he
           rcases hdone e he with h1 | h1
@@ -337,17 +343,26 @@ theorem cinv_step {s s' : State} {op : Op} (h : CInv s) (hs : step? s op = some 
           simp at hs; subst hs
           obtain ⟨_, _, hst, hcm⟩ := hg
           have hb := hfull b (by rw [hfl]; simp)
-          refine ⟨hnd, hdq, ?_, ?_, ?_, ?_, hord, hnA, hnD, hdis, haA, hdA, huniq, hnAcc⟩
+          have hbs : FullOK s.acked s.gaveUp bs := fun x hx => hfull x (by rw [hfl]; exact List.mem_cons_of_mem _ hx)
+          refine ⟨hnd, hdq, hdqk, ?_, ?_, ?_, ?_, hord, hnA, hnD, hdis, haA, hdA, huniq, hnAcc⟩
           · simp only; rw [← hlay, hfl]; simp [List.append_assoc]
           · simp only; rw [← hloop, hcm]; simp
-          · intro x hx; exact hfull x (by rw [hfl]; exact List.mem_cons_of_mem _ hx)
+          · simp only
+            split
+            · exact FullOK_mono hbs (fun e he => List.mem_append_left _ he) (fun e he => he)
+            · exact hbs
           · intro e he
             simp only [List.mem_append] at he
+            simp only
             rcases he with he | he
-            · exact hdone e he
+            · rcases hdone e he with h1 | h1
+              · left; split
+                · exact List.mem_append_left _ h1
+                · exact h1
+              · exact Or.inr h1
             · cases hbst : b.st with
-              | pending => exact absurd hbst hst
-              | ok => exact Or.inl (hb.1 hbst e he)
+              | pending => left; simp [he]
+              | ok => left; simp only [reduceCtorEq, ↓reduceIte]; exact hb.1 hbst e he
               | failed => exact Or.inr (hb.2.1 hbst e he)
               | routed => exact absurd hbst hb.2.2
         · simp at hs
@@ -357,13 +372,29 @@ theorem cinv_step {s s' : State} {op : Op} (h : CInv s) (hs : step? s op = some 
     split at hs
     · rename_i hh
       simp at hs; subst hs
-      refine ⟨hnd, hdq, hlay, ?_, hfull, hdone, hord, hnA, hnD, hdis, haA, hdA, huniq, hnAcc⟩
+      refine ⟨hnd, hdq, hdqk, hlay, ?_, hfull, hdone, hord, hnA, hnD, hdis, haA, hdA, huniq, hnAcc⟩
       simp only
       rw [← hloop]
       cases hc : s.main.committing with
       | nil => simp [hc] at hh
       | cons x xs => simp [hc] at hh; subst hh; simp
     · simp at hs
+  | spawn p k =>
+    simp only [step?] at hs
+    split at hs
+    · simp at hs; subst hs
+      exact ⟨hnd, hdq, hdqk, hlay, hloop, hfull, hdone, hord, hnA, hnD, hdis, haA, hdA, huniq, hnAcc⟩
+    · simp at hs
+  | addKid p k =>
+    simp only [step?] at hs
+    split at hs
+    · simp at hs; subst hs
+      exact ⟨hnd, hdq, hdqk, hlay, hloop, hfull, hdone, hord, hnA, hnD, hdis, haA, hdA, huniq, hnAcc⟩
+    · simp at hs
+  | kidAck p k =>
+    simp only [step?] at hs
+    simp at hs; subst hs
+    exact ⟨hnd, hdq, hdqk, hlay, hloop, hfull, hdone, hord, hnA, hnD, hdis, haA, hdA, huniq, hnAcc⟩
 
 theorem cinv_run {s s' : State} {ops : List Op} (h : CInv s) (hr : run s ops = some s') : CInv s' := by
   induction ops generalizing s with
